@@ -382,6 +382,7 @@ type d18Env struct {
 	info  d18Info
 	nextPort int
 	viol  *d18Violation
+	inClose bool
 }
 
 const d18WatcherIdx = 99
@@ -660,11 +661,20 @@ func (p *d18Peer) finished() bool {
 
 // settle waits until every handler goroutine is parked, then takes in what the connections received.
 func (e *d18Env) settle() {
+	// two passes: a handler that finishes its work late can still write to (binary) or wake up (text) a
+	// connection that was looked at earlier in the first pass; after the first pass no binary handler is
+	// executing a command any more, so the second pass only waits for woken text handlers to park again
+	for pass := 0; pass < 2; pass++ {
+		for _, p := range e.allPeers() {
+			if p.opened && !p.dead {
+				e.waitParked(p)
+			}
+		}
+	}
 	for _, p := range e.allPeers() {
 		if !p.opened || p.dead {
 			continue
 		}
-		e.waitParked(p)
 		if p.proto == nil && p.stream.protocol != nil {
 			p.proto = p.stream.protocol
 		}
@@ -673,13 +683,22 @@ func (e *d18Env) settle() {
 			e.onDead(p)
 		}
 	}
-	// deferred closes of text connections whose wait has ended
-	for _, p := range e.allPeers() {
-		if p.opened && !p.dead && p.closeReq != nil && p.pending == nil {
-			st := *p.closeReq
-			p.closeReq = nil
-			e.logf("c%d is idle again: deferred close how=%s", p.idx, st.How)
-			e.doClose(p, st)
+	// deferred closes of text connections whose wait has ended - one at a time, never nested inside
+	// another close (its before/after comparison must see that close only)
+	if e.inClose {
+		return
+	}
+	for again := true; again; {
+		again = false
+		for _, p := range e.allPeers() {
+			if p.opened && !p.dead && p.closeReq != nil && p.pending == nil && e.viol == nil && !e.info.NeedChild {
+				st := *p.closeReq
+				p.closeReq = nil
+				e.logf("c%d is idle again: deferred close how=%s", p.idx, st.How)
+				e.doClose(p, st)
+				again = true
+				break
+			}
 		}
 	}
 }
@@ -989,7 +1008,8 @@ func (e *d18Env) deadQueued() map[int]int {
 				if r < 0 || r >= len(e.sent) {
 					continue
 				}
-				if q, ok := e.peers[e.sent[r].Conn]; ok && q.dead && !q.text && q.cid >= 0 {
+				// (the all-zero id counts as "no id announced")
+				if q, ok := e.peers[e.sent[r].Conn]; ok && q.dead && !q.text && q.cid >= 0 && q.cid != 2 {
 					out[r] = q.idx
 				}
 			}
@@ -1264,9 +1284,12 @@ func (e *d18Env) stepClose(st d18Step) {
 		e.info.Classes["server-close-while-text-lock-waits"] = true
 	}
 	e.doClose(p, st)
+	e.settle()
 }
 
 func (e *d18Env) doClose(p *d18Peer, st d18Step) {
+	e.inClose = true
+	defer func() { e.inClose = false }()
 	q, h := e.ownedBy(p)
 	p.queuedAtClose, p.heldAtClose, p.willsAtClose, p.how = q, h, len(p.wills), st.How
 	e.info.Closes++
@@ -1363,9 +1386,34 @@ func (e *d18Env) doClose(p *d18Peer, st d18Step) {
 	e.afterClose(p, st, pre)
 }
 
+// d18CloseStuckOnWillReply: some goroutine sits in TextServerProtocol.Close -> will command ->
+// ProcessLockResultCommand on a channel send (the reply channel of the text protocol has room for four
+// results and nobody reads it during Close).
+func d18CloseStuckOnWillReply() bool {
+	buf := make([]byte, 1<<20)
+	buf = buf[:runtime.Stack(buf, true)]
+	for _, g := range strings.Split(string(buf), "\n\n") {
+		if strings.Contains(g, "chan send") && strings.Contains(g, "(*TextServerProtocol).ProcessLockResultCommand") && strings.Contains(g, "(*TextServerProtocol).Close") {
+			return true
+		}
+	}
+	return false
+}
+
 func (e *d18Env) waitDone(p *d18Peer, extra chan struct{}) {
 	t := time.NewTimer(d18Watchdog)
 	defer t.Stop()
+	if p.text && len(p.wills) >= 5 {
+		select {
+		case <-p.done:
+		case <-time.After(1500 * time.Millisecond):
+			if d18CloseStuckOnWillReply() {
+				e.fail("C18:text:close-blocks-on-will-replies", "closing the text connection c%d with %d wills never finishes: Close() is blocked sending the fifth will's result into the protocol's reply channel (capacity 4, no reader); the remaining wills do not run and the stream is never closed",
+					p.idx, len(p.wills))
+				panic(d18StopRun{})
+			}
+		}
+	}
 	select {
 	case <-p.done:
 	case <-t.C:
@@ -1592,6 +1640,8 @@ func (e *d18Env) drain() {
 // ---------------------------------------------------------------------------------------------
 // running a case
 
+type d18StopRun struct{}
+
 type d18Run struct {
 	Snaps []string // lock table after every step (index = step), then after the drain
 	Info  d18Info
@@ -1608,6 +1658,10 @@ func d18Execute(c *d18Case, opts d18Opts) (run *d18Run, err error) {
 	run = &d18Run{}
 	defer func() {
 		if r := recover(); r != nil {
+			if _, ok := r.(d18StopRun); ok {
+				run.Info, run.Viol, run.Hist = e.info, e.viol, e.history()
+				return
+			}
 			e.fail("C18:panic:"+w18TopFunc(string(debug.Stack())), "panic in the harness goroutine while it drove the server (sweep / reply path): %v\n%s", r, d18TrimStack(string(debug.Stack())))
 		}
 		run.Info, run.Viol, run.Hist = e.info, e.viol, e.history()
